@@ -68,6 +68,14 @@ def bus_seeds():
     put('fuzz_bus', bytes([0x00, 0x01] + lit(t1[:6]) + [0xf9] + lit(t1) + [0xfb, 0xf7] + lit(t1)))
     put('fuzz_bus', bytes([0x01, 0x01, 0xc0, 0x81, 0xcc, 0x84, 0xcc, 0x80, 0xcc, 0x81, 0xcc, 0x82, 0xcc, 0x83] + lit(enh(t1))))  # RESETTED + INFO frames
     put('fuzz_bus', bytes([0x01, 0x01, 0xe8, 0x80, 0xec, 0x81, 0xf0, 0x80] + lit(enh(t1))))   # FAILED / ERROR frames
+    # own exchange on the enhanced device (echoing adapter) disturbed by an unsolicited adapter frame after 2..12 symbol times
+    for delay in (2, 4, 6, 8, 10, 12):
+        for fr in ([0xe9, 0x95], [0xc9, 0x95], [0xed, 0x80], [0xc1, 0x81]):     # FAILED, STARTED, ERROR_EBUS, RESETTED
+            put('fuzz_bus', bytes([0x31, 0x00, 0xf8, 0x08, 0xb5, 0x09, 0x00, 0x00, 0xc6, 0xaa] + [0xf0] * delay + fr + [0xc6, 0xaa, 0xc6, 0xaa]))
+    # the same on the plain device: a foreign byte / SYN in the middle of the own telegram
+    for delay in (2, 5, 8, 11):
+        for b in (0x55, 0xaa, 0x00):
+            put('fuzz_bus', bytes([0x30, 0x00, 0xf8, 0x08, 0xb5, 0x09, 0x02, 0x0d, 0xaa] + [0xf0] * delay + [b, 0xaa, 0xaa]))
 
 
 def cmd_seeds():
